@@ -54,7 +54,9 @@ def grouped_conv_graph(rng):
 
 
 def run(ctx):
+    from core import run_graph_ops
     rng = ctx.rng
+    cases, obs, reqs = [], [], []
     OPS = ["infer", "file_rt", "dict_rt"]
     for i in range(ctx.n(160)):
         grouped = i % 8 == 7
@@ -81,6 +83,10 @@ def run(ctx):
                 h = ["infer"] + h          # file form cannot carry None annotations
             case = {"op": "history", "graph": g, "ops": h}
             ctx.case(case); ctx.count("histories"); ctx.count("len_%d" % len(h))
+            if len(cases) < 150 and not grouped:
+                c2 = {"op": "graph", "graph": g, "ops": h}
+                st2, _ = run_graph_ops(g, h)
+                cases.append(c2); obs.append({"steps": st2}); reqs.append(c2)
             try:
                 graph = impl_construct(g)
             except Exception:
@@ -118,3 +124,4 @@ def run(ctx):
             except Exception as e:  # noqa
                 ctx.violate(case, "an operation of the history raised on a consistent graph",
                             {**sig, "what": "raised", "err": err_name(e)}, observed=f"{type(e).__name__}: {e}")
+    ctx.compare("histories", cases, obs, reqs)
